@@ -70,6 +70,10 @@ static void gen(enc_t *x,float **b,long n,int sig){
         case 7: v=u*8.0; break;                       /* far beyond +-1 */
         case 8: v=0.4*sin(t*0.05*(c+1))+0.2*sin(t*0.31); break;
         case 9: v=((t/3000)&1)?u*0.7:0.0; break;      /* noise / silence alternation */
+        case 10: v=0.9*sin(2*M_PI*(300.+170.*c)*t/(double)x->vi.rate)+0.045*u; break;   /* a loud tone per channel with a little noise: vectors far from the noise books' centre */
+        case 11: v=(c==x->ch-1)?0.0:0.5*sin(2*M_PI*(220.+90.*c)*t/(double)x->vi.rate)+0.2*u; break;     /* last channel (the LFE of 5.1) digitally silent, the rest active */
+        case 12: v=(c==x->ch-1)?0.8*sin(2*M_PI*60.*t/(double)x->vi.rate):0.0; break;                    /* only the last channel active */
+        case 13: v=(c==0)?0.0:(c==x->ch-1)?0.8*sin(2*M_PI*60.*t/(double)x->vi.rate):0.4*u; break;       /* first channel silent, the rest active */
         default: v=u*x->env; break;                   /* loud/quiet noise */
       }
       b[c][i]=(float)v;
